@@ -32,6 +32,7 @@ def main():
     checks = [prop]
     needs = ""
     devdep = None
+    repl = None
     i = 4
     while i < len(a):
         if a[i] == "--checks":
@@ -40,6 +41,8 @@ def main():
             needs = a[i + 1]; i += 2
         elif a[i] == "--extra-dev-dep":
             devdep = a[i + 1]; i += 2
+        elif a[i] == "--replace-dev-dep":
+            repl = a[i + 1].split("=>", 1); i += 2
         else:
             i += 1
     patch = os.path.join(out, "patch.diff")
@@ -62,6 +65,12 @@ def main():
         c = c.replace("[dev-dependencies]\n", "[dev-dependencies]\n" + devdep + "\n", 1)
         with open(os.path.join(wt, "Cargo.toml"), "w") as f:
             f.write(c)
+    if repl:
+        with open(os.path.join(wt, "Cargo.toml")) as f:
+            c = f.read()
+        assert repl[0] in c, "dev-dependency line to replace not found"
+        with open(os.path.join(wt, "Cargo.toml"), "w") as f:
+            f.write(c.replace(repl[0], repl[1], 1))
     rc_with, o_with = run("cargo test --offline -p darling --test seed_demo 2>&1 | tail -15", wt, tgt)
     demo_fails_with = "FAILED" in o_with or "panicked" in o_with or "could not compile" in o_with or "error[" in o_with
     run(["git", "apply", "-R", patch], wt)
